@@ -18,6 +18,19 @@ func Verif_Step_sack_arb() {
 	V.ClockAdvance(time.Duration(V.U32("flight"))) // the reply arrives an arbitrary time after the last send
 	src.Next = append([]byte(nil), P...)
 	resp, err := d.ReceiveProbe(100 * time.Millisecond)
+	if L >= 40 && V.ParamInt("c20", 0) == 1 {
+		// C20: the target acknowledging on the probed connection without any SACK block means "SACK unavailable" -
+		// that must surface as NotSupportedError (prefer_sack falls back on it), not be skipped as noise
+		var ns0 *NotSupportedError
+		doff := int(P[32] >> 4)
+		_, hasSack := uint32(0), false
+		if doff > 5 && 20+doff*4 <= L {
+			_, hasSack = vMinSack(P[40:20+V.Concretize(doff)*4], d.state.localInitSeq)
+		}
+		tl := int(N.BE16(P[2:4])) // declared total length: must cover the TCP header (0 = TSO, gopacket takes the buffer length)
+		plainAck := V.All(P[0]&0xf == 5, P[6]&0x3f == 0, P[7] == 0, V.Any(tl == 0, tl >= 20+doff*4), doff >= 5, 20+doff*4 <= L, vOnTuple(P, sink.Pkts[0]), P[33]&0x07 == 0, !hasSack)
+		V.Assert(V.Implies(plainAck, V.All(err != nil, errors.As(err, &ns0))), "C20/ack-without-sack-blocks-is-unsupported")
+	}
 	if err != nil {
 		V.Reach("rejected")
 		var ns *NotSupportedError
